@@ -9,7 +9,7 @@ from BPTK_Py import Model, Agent, DataCollector
 LEN = int(os.environ.get("C14_LEN", "3"))
 FIRST = int(os.environ.get("C14_FIRST", "-1"))
 EXTRA = int(os.environ.get("C14_EXTRA", "-1"))
-NOPS = 7
+NOPS = 8
 MAXID = 4
 TYPES = ["A", "B"]
 STATES = ["active", "idle"]
@@ -19,6 +19,10 @@ class _A(Agent):
     def initialize(self):
         self.agent_type = "A"
         self.state = "active"
+        if getattr(self.model, "spawn", False):
+            # an agent that brings a companion: it creates another agent while it is itself being created
+            self.model.spawn = False
+            self.model.create_agent("B", None)
 
 
 class _B(Agent):
@@ -89,6 +93,25 @@ def apply_op(m, ref, op, arg, rnd):
     elif op == 6:
         m.delete_agents([arg, arg + 1])
         ref.live = [a for a in ref.live if a[0] not in (arg, arg + 1)]
+    elif op == 7:
+        # nested creation: an A whose initialize() creates a B; both get fresh, distinct ids (the inner one is registered first)
+        m.spawn = True
+        a = m.create_agent("A", None)
+        m.spawn = False
+        inner = m.agents[-2] if len(m.agents) >= 2 else None
+        if inner is None or inner.agent_type != "B":
+            return "nested creation: companion not registered"
+        for x in (a, inner):
+            if x.id in ref.issued:
+                return "id %d reused (nested creation)" % x.id
+            if ref.issued and x.id <= max(ref.issued):
+                return "id %d not fresh (nested creation)" % x.id
+        if a.id == inner.id:
+            return "nested creation: both agents have id %d" % a.id
+        ref.issued.append(a.id)
+        ref.issued.append(inner.id)
+        ref.live.append([inner.id, "B", "active"])
+        ref.live.append([a.id, "A", "active"])
     return None
 
 
